@@ -418,6 +418,14 @@ impl TryFrom<&mut Peekable<Lexer>> for ParserNode {
                         Type::UpperArith(inst) => {
                             let rd = lex.get_reg()?;
                             let mut imm = lex.get_imm()?;
+                            // The operand is placed in the upper 20 bits: one that needs more
+                            // bits would silently lose them
+                            if !(-(1 << 19)..(1 << 20)).contains(&imm.get().value()) {
+                                return Err(Expected(
+                                    vec![ExpectedType::Imm],
+                                    Box::new(imm.token().clone()),
+                                ));
+                            }
                             let new_imm = Imm::new(imm.get().value() << 12);
                             // shift left by 12
                             *imm.get_mut() = new_imm;
